@@ -134,6 +134,7 @@ func main() {
 		}
 	}
 	globals(prog, pkgs, out)
+	errFlow(prog, cg, byPath, *outJSON) // errsites.go: error-flow table (C13/C11) -> errflow.json
 	for _, tn := range [][2]string{{"pkg/sql/parser", "Parser"}, {"pkg/sql/tokenizer", "Tokenizer"}} {
 		if p := byPath[mod+"/"+tn[0]]; p != nil {
 			if fx := fieldFx(prog, p, tn[1]); fx != nil {
